@@ -876,7 +876,7 @@ func init() {
 		if thorough {
 			ctx = 5
 		}
-		for sc := int64(0); sc <= 5; sc++ {
+		for sc := int64(0); sc <= 6; sc++ {
 			for _, closers := range []int64{1, 2} {
 				for rd := int64(0); rd <= 1; rd++ {
 					if !thorough && closers == 2 && rd == 0 && sc != 4 {
@@ -907,7 +907,7 @@ func init() {
 		Quick:    func(l *loaded) []Inst { return c10(false) },
 		Thorough: func(l *loaded) []Inst { return c10(true) },
 		Covers:   []string{"C10.end", "C10.relay.end", "self.end", "self.clock.end", "self.pool.end", "self.errors.end", "self.format.end"},
-		Bounds:   "Close injected into an idle tunnel, a pending Send, a pending heartbeat exchange, a pending reconnect, parked inbound deliveries and a tunnel whose socket already died; 1 or 2 concurrent closers; with and without a reader; a late connection-state response / tunnelling acknowledgement followed by the end of the server goroutine (disconnect response, socket death, Close) inside the relay's offer window; real serve/process/heartbeat/relay goroutines (<= 9 threads), context bound 3 (thorough 5), scheduler step bound 30000; happens-before race check (vector clocks over go, channel, mutex, WaitGroup, Once and timer edges) on every field of the Tunnel object along all explored schedules",
+		Bounds:   "Close injected into an idle tunnel, a pending Send, a pending heartbeat exchange, a pending reconnect, parked inbound deliveries, a tunnel whose socket already died and an idle tunnel whose socket refuses exactly the disconnect request (transient error, inbound side still open); 1 or 2 concurrent closers; with and without a reader; a late connection-state response / tunnelling acknowledgement followed by the end of the server goroutine (disconnect response, socket death, Close) inside the relay's offer window; real serve/process/heartbeat/relay goroutines (<= 9 threads), context bound 3 (thorough 5), scheduler step bound 30000; happens-before race check (vector clocks over go, channel, mutex, WaitGroup, Once and timer edges) on every field of the Tunnel object along all explored schedules",
 		Outside:  "3..4 concurrent closers; memory-model effects below happens-before; the receiver goroutine of the real TunnelSocket (C16)",
 		Assume:   []string{"in-memory socket whose Close is counted", "sync.Once/WaitGroup/Mutex are engine primitives"},
 	})
